@@ -85,7 +85,7 @@ class TImpl(D.Impl):
     super().__init__()
     self.spec_trees = spec_trees
     self.specs = [c04.build(t) for t in spec_trees]
-    self.spec_lines = [trlib.to_line(t) for t in spec_trees]
+    self.spec_lines = [self.spec_line(t) for t in spec_trees]
     self.classes = make_classes(self.specs, cls_refs)
     self.cls_refs = list(cls_refs)
     self.partial_used = False       # some step ran under an allow_partial(True) scope
@@ -135,6 +135,25 @@ class TImpl(D.Impl):
       return type(x).sym_fields
     return None
 
+  @staticmethod
+  def spec_line(tree):
+    """Text of a spec tree with the dict values inside it (defaults, enum values) in key order: a class normalises its field
+    defaults to symbolic dicts, which list their keys in schema order."""
+    def nv(v):
+      if v[0] in (6, 7): return [v[0], [nv(x) for x in v[1]]]
+      if v[0] == 8: return [8, sorted([[k, nv(x)] for k, x in v[1]], key=lambda kv: kv[0])]
+      return v
+    def nm(m): return [m[0], [nv(x) for x in m[1]], m[2]]
+    def ns(t):
+      k = t[0]
+      if k == 4: return [4, [nv(v) for v in t[1]], nm(t[2])]
+      if k == 5: return [5, ns(t[1]), t[2], t[3], nm(t[4])]
+      if k == 6: return [6, [ns(e) for e in t[1]], t[2], t[3], nm(t[4])]
+      if k == 7: return [7, [[[kk, ns(fs)] for kk, fs in t[1][0]]] if t[1] else [], nm(t[2])]
+      if k == 9: return [9, [ns(c) for c in t[1]], nm(t[2])]
+      return t[:-1] + [nm(t[-1])]
+    return trlib.to_line(ns(tree))
+
   def spec_ref(self, x):
     s = self.spec_of(x)
     if s is None:
@@ -145,7 +164,7 @@ class TImpl(D.Impl):
           return self.cls_refs[i] if self.cls_refs[i] else -2 - i      # the built-in Any schema of class i
       return -1
     try:
-      line = trlib.to_line(c04.render(s))
+      line = self.spec_line(c04.render(s))
     except Exception:       # pylint: disable=broad-except
       return -1
     for i, l in enumerate(self.spec_lines):
@@ -178,6 +197,17 @@ class TImpl(D.Impl):
   def snapshot(self):
     return [[] if r is None else [self.snap(r, None)] for r in self.roots]
   snapshot_solo = snapshot
+
+  def enc_ret(self, v):
+    # (key, value) only for popitem; any other tuple is a value
+    if isinstance(v, tuple) and not getattr(self, 'popitem', False):
+      return self.enc_ret_value(v)
+    return super().enc_ret(v)
+
+  def enc_ret_value(self, v):
+    if isinstance(v, tuple):
+      return [1, [8, render_pv(v)]]
+    return super().enc_ret_value(v)
 
   def enc_leaf(self, v, canon):
     # used by apply_op for return values: SymCore leaf format where possible
@@ -231,7 +261,8 @@ def build_roots(impl, roots):
 def scope_partial(scope):
   return D.eff(scope[3])
 
-def run_case(case, after_step=None, after_init=None):
+def run_case(case, after_step=None, after_init=None, guard=True):
+  """guard: operations outside the vocabulary of the model (see op_supported) are answered 'not applicable' without being run."""
   _, spec_trees, cls_refs, roots, steps = case
   impl = TImpl(spec_trees, cls_refs)
   with patched(impl):
@@ -243,7 +274,11 @@ def run_case(case, after_step=None, after_init=None):
       if scope_partial(scope) is True:
         impl.partial_used = True
       before = after_step.prepare(impl, scope, op) if after_step is not None and hasattr(after_step, 'prepare') else None
-      res, info = D.apply_op(impl, scope, op)
+      if guard and not op_supported(impl, scope, op):
+        res, info = [1, D.ERR_NA], dict(tag=op[0], pos=op[1], target=None, exception=None, new_roots=[], detached=[])
+      else:
+        impl.popitem = op[0] == D.DPOPITEM
+        res, info = D.apply_op(impl, scope, op)
       if after_step: after_step(impl, n, scope, op, res, info, before)
       outs.append([res, impl.snapshot()])
   return [inits, snap0, outs]
@@ -458,6 +493,8 @@ def supported(t):
     # open finding C03/frozen-differs: the container held by a frozen field can be written to in depth (and, for a class, is the
     # default object of the spec itself): frozen specs keep to atomic values in the correspondence
     if fz and d and has_container(d[0]): bad.append(s)
+    # a Union with a dict / list default: symbolic_transform_fn looks the candidate up with Union.get_candidate(Dict()), which can fail
+    if s[0] == 9 and d and has_container(d[0]): bad.append(s)
   walk_spec(t, fn)
   return not bad
 
@@ -582,7 +619,13 @@ class TGen:
 
   def case(self, nops, wild=False):
     r = self.r
-    table, refs, plan = self.plan()
+    for _ in range(20):
+      table, refs, plan = self.plan()
+      try:
+        TImpl(table, refs)      # the classes must be definable
+        break
+      except Exception:     # pylint: disable=broad-except
+        continue
     specs = [c04.build(t) for t in table]
     roots = []
     for k, ref, t in plan:
@@ -813,12 +856,24 @@ def written(impl, op):
     return out
   return [(t, v) for v in _op_values(op)]
 
+def scope_restrictive(scope):
+  """An enclosing as_sealed(True) / allow_writable_accessors(False): it also governs the pg.Dict a written value has become while
+  Schema.apply completes it through __setitem__ (WritePermissionError from inside the write) -- outside the model."""
+  return D.eff(scope[0]) is True or D.eff(scope[1]) is False
+
+def any_typed(impl, x):
+  found = []
+  def visit(n, parent, key):
+    if typed_members(impl, n): found.append(n)
+  D.walk(x, visit)
+  return bool(found)
+
 def value_supported(impl, x, v, scope):
   if x is None or not typed_members(impl, x):
     return True
   while v[0] == 2: v = v[1]
   if v[0] == 3:
-    return not (scope_partial(scope) is not None and has_container(v[1]))
+    return not ((scope_partial(scope) is not None or scope_restrictive(scope)) and has_container(v[1]))
   if v[0] == 0:
     return v[1][0] == 0
   if v[0] == 1:
@@ -828,8 +883,15 @@ def value_supported(impl, x, v, scope):
       return True
   return False
 
+def lit_has_obj(l):
+  return l[0] == 1 and (l[1] >= 2 or any(lit_has_obj(v) for _, v in l[4]))
+
 def op_supported(impl, scope, op):
   P = pg()
+  for v in _op_values(op):
+    while v[0] == 2: v = v[1]
+    if v[0] == 0 and lit_has_obj(v[1]):
+      return False            # objects are constructed through their class schema, not as SymCore literals
   for x, v in written(impl, op):
     if not value_supported(impl, x, v, scope):
       return False
@@ -841,5 +903,7 @@ def op_supported(impl, scope, op):
     except D.NotApplicable:
       return True
     if tag in (D.LIMUL, D.LMUL, D.LADD, D.LCOPY) and typed_members(impl, t) and any(D.is_sym(v) for _, v in D.sym_children(t)):
+      return False
+    if tag in (D.LMUL, D.LADD, D.LCOPY, D.DCOPY, D.CLONE) and (scope_restrictive(scope) or scope_partial(scope) is not None) and any_typed(impl, t):
       return False
   return True
